@@ -238,6 +238,11 @@ where
 
     Some(value)
   }
+
+  fn size_hint(&self) -> (usize, Option<usize>) {
+    let remaining = self.index_back - self.index;
+    (remaining, Some(remaining))
+  }
 }
 
 impl<T> ExactSizeIterator for Iterator1D<T>
@@ -249,7 +254,7 @@ where
     + Copy,
 {
   fn len(&self) -> usize {
-    self.steps.len()
+    self.index_back - self.index
   }
 }
 
@@ -606,6 +611,11 @@ where
     self.index += 1;
     Some(item)
   }
+
+  fn size_hint(&self) -> (usize, Option<usize>) {
+    let remaining = self.index_back - self.index;
+    (remaining, Some(remaining))
+  }
 }
 
 impl<T> DoubleEndedIterator for Iterator2D<T>
@@ -636,7 +646,7 @@ where
     + Copy,
 {
   fn len(&self) -> usize {
-    self.partition.1 - self.partition.0
+    self.index_back - self.index
   }
 }
 
